@@ -10,20 +10,63 @@ Open Scope N_scope.
 Lemma strip_log_clean l : Forall clean_prompt (strip_log l).
 Proof. unfold strip_log. apply Forall_forall. intros p H. apply in_map_iff in H as (q & <- & _). reflexivity. Qed.
 
-Lemma filter_clean isr m e l l' :
-  m <> MNotes -> filter_log isr m e l = Ok l' -> Forall clean_prompt l'.
+Lemma run_action_clears isr e f a l l' :
+  clears f a = true -> run_action isr e f a l = Ok l' -> Forall clean_prompt l'.
 Proof.
-  intros Hm H. destruct m; [| |contradiction].
-  - (* Default *)
-    unfold filter_log, arm_default_logged_in, arm_default_logged_out in H.
-    destruct (e_logged_in e).
-    + unfold run_action in H. destruct (redact_log isr l) as [l1|]; [|discriminate].
-      destruct (e_cas_ok e).
-      * unfold cas_success_clears in H. inversion H. apply strip_log_clean.
-      * unfold arm_cas_failure, run_simple in H. inversion H. apply strip_log_clean.
-    + unfold run_action, run_simple in H. inversion H. apply strip_log_clean.
-  - (* Local *)
-    unfold filter_log, arm_local, run_action, run_simple in H. inversion H. apply strip_log_clean.
+  intros Hc H. destruct a; cbn [clears] in Hc; try discriminate.
+  - simpl in H. inversion H. apply strip_log_clean.
+  - apply andb_true_iff in Hc as [Hs Hf]. unfold run_action in H.
+    destruct (redact_log isr l) as [l1|]; [|discriminate].
+    destruct (e_cas_ok e).
+    + rewrite Hs in H. inversion H. apply strip_log_clean.
+    + destruct f; try discriminate. simpl in H. inversion H. apply strip_log_clean.
+Qed.
+
+Lemma filter_clean isr w a m e l l' :
+  m <> MNotes -> w_arms w = Some a -> w_filtered w = true ->
+  filter_log isr a m e l = Ok l' -> Forall clean_prompt l'.
+Proof.
+  intros Hm Ha Hf H. unfold w_filtered in Hf. rewrite Ha in Hf.
+  apply andb_true_iff in Hf as [Hf H3]. apply andb_true_iff in Hf as [H1 H2].
+  destruct m; [| |contradiction]; unfold filter_log in H.
+  - destruct (e_logged_in e); (eapply run_action_clears; [|exact H]; assumption).
+  - eapply run_action_clears; [|exact H]; assumption.
+Qed.
+
+(* whatever the arms are, a log without messages stays without messages *)
+Lemma redact_log_clean isr l l' : Forall clean_prompt l -> redact_log isr l = Ok l' -> Forall clean_prompt l'.
+Proof.
+  intros Hc H. unfold redact_log in H.
+  destruct (redact_prompts isr (map p_messages l)) as [[mss k]|] eqn:E; [|discriminate].
+  inversion H; subst l'. clear H.
+  revert mss k E. induction l as [|p l IH]; intros mss k E; [destruct mss; constructor|].
+  inversion Hc as [|? ? Hp Hl]; subst. simpl in E. unfold clean_prompt in Hp. rewrite Hp in E. simpl in E.
+  destruct (redact_prompts isr (map p_messages l)) as [[mss' k']|] eqn:E'; [|discriminate].
+  inversion E; subst. simpl. constructor; [reflexivity|]. eapply IH; eauto.
+Qed.
+
+Lemma run_simple_keeps_clean isr a l l' :
+  Forall clean_prompt l -> run_simple isr a l = Ok l' -> Forall clean_prompt l'.
+Proof.
+  intros Hc H. destruct a; simpl in H.
+  - inversion H. apply strip_log_clean.
+  - eapply redact_log_clean; eauto.
+  - inversion H; subst. exact Hc.
+  - inversion H; subst. exact Hc.
+Qed.
+
+Lemma filter_keeps_clean isr a m e l l' :
+  Forall clean_prompt l -> filter_log isr a m e l = Ok l' -> Forall clean_prompt l'.
+Proof.
+  intros Hc H.
+  assert (G : forall act, run_action isr e (a_cas_failure a) act l = Ok l' -> Forall clean_prompt l').
+  { intros act Ha. destruct act; try (eapply run_simple_keeps_clean; eauto; fail).
+    unfold run_action in Ha. destruct (redact_log isr l) as [l1|] eqn:E1; [|discriminate].
+    pose proof (redact_log_clean isr l l1 Hc E1) as Hc1.
+    destruct (e_cas_ok e).
+    - destruct cas_success_clears; inversion Ha; subst; [apply strip_log_clean|exact Hc1].
+    - eapply run_simple_keeps_clean; eauto. }
+  unfold filter_log in H. destruct m; [destruct (e_logged_in e)| |]; eapply G; eauto.
 Qed.
 
 (* ---------- one writer step ---------- *)
@@ -44,14 +87,20 @@ Lemma no_text isr w m e ns src :
   w_filtered w = true \/ source_is_notes w = true ->
   Inv_clean (write isr w m e ns src).
 Proof.
-  intros Hm Hinv Hw. unfold write.
-  destruct (w_filtered w) eqn:Ef.
-  - destruct (filter_log isr m e (built_log w ns src)) as [l'|] eqn:E; [|exact Hinv].
-    constructor; [|exact Hinv]. eapply filter_clean; eauto.
-  - destruct Hw as [Hw|Hw]; [discriminate|].
-    constructor; [|exact Hinv]. unfold built_log. rewrite Hw. simpl.
+  intros Hm Hinv Hw.
+  assert (Hnotes : source_is_notes w = true -> Forall clean_prompt (built_log w ns src)).
+  { intro Hs. unfold built_log. rewrite Hs. simpl.
     destruct (w_src_notes w); [|constructor].
-    apply Forall_forall. intros p Hp. apply in_map_iff in Hp as (ij & <- & _). apply pick_clean. exact Hinv.
+    apply Forall_forall. intros p Hp. apply in_map_iff in Hp as (ij & <- & _). apply pick_clean. exact Hinv. }
+  unfold write. destruct (w_arms w) as [a|] eqn:Ea.
+  - destruct (filter_log isr a m e (built_log w ns src)) as [l'|] eqn:E; [|exact Hinv].
+    constructor; [|exact Hinv]. destruct (w_filtered w) eqn:Ef.
+    + eapply filter_clean; eauto.
+    + destruct Hw as [Hw|Hw]; [discriminate|]. specialize (Hnotes Hw).
+      (* an unsafe match over an already clean log: every action keeps a clean log clean *)
+      eapply filter_keeps_clean; eauto.
+  - destruct Hw as [Hw|Hw]; [unfold w_filtered in Hw; rewrite Ea in Hw; discriminate|].
+    constructor; [|exact Hinv]. apply Hnotes. exact Hw.
 Qed.
 
 Lemma no_text_run isr : forall steps ns,
@@ -70,12 +119,15 @@ Qed.
 Lemma inventory_ok_now : inventory_ok note_writers = true.
 Proof. vm_compute. reflexivity. Qed.
 
-(* every writer of the inventory other than the known one may be used in no_text_run *)
-Lemma inventory_safe w : In w note_writers -> known_unsafe w = false -> safe_writer w = true.
+(* every writer of the inventory may be used in no_text_run *)
+Lemma inventory_safe w : In w note_writers -> safe_writer w = true.
 Proof.
-  intros Hin Hk. pose proof inventory_ok_now as H. unfold inventory_ok in H.
-  rewrite forallb_forall in H. specialize (H _ Hin). rewrite Hk, orb_false_r in H. exact H.
+  intro Hin. pose proof inventory_ok_now as H. unfold inventory_ok in H.
+  rewrite forallb_forall in H. exact (H _ Hin).
 Qed.
+
+Lemma inventory_notes_ok_now : inventory_notes_ok note_writers = true.
+Proof. vm_compute. reflexivity. Qed.
 
 (* ---------- an unfiltered writer fed from the working log ---------- *)
 
@@ -83,7 +135,7 @@ Definition wit_dirty : note := [mkPrompt [112] [116] [MUser [104; 105]]].
 Definition wit_src : source := mkSource wit_dirty [].
 
 Lemma unfiltered_worklog_refuted isr w :
-  w_filtered w = false -> source_is_notes w = false ->
+  w_arms w = None -> source_is_notes w = false ->
   Inv_clean [] /\ forall m e, ~ Inv_clean (write isr w m e [] wit_src).
 Proof.
   intros Hf Hs. split; [constructor|]. intros m e H. unfold write in H. rewrite Hf in H.
@@ -111,11 +163,13 @@ Proof.
 Qed.
 
 Lemma notes_mode_masks isr w e ns src :
-  w_filtered w = true -> log_text_ok (built_log w ns src) ->
+  w_redacts_in_notes w = true -> log_text_ok (built_log w ns src) ->
   write isr w MNotes e ns src
   = map (fun p => set_messages p (map (redact_msg_spec isr) (p_messages p))) (built_log w ns src) :: ns.
 Proof.
-  intros Hf Hok. unfold write. rewrite Hf. unfold filter_log, arm_notes, run_action, run_simple.
+  intros Hf Hok. unfold write. unfold w_redacts_in_notes in Hf.
+  destruct (w_arms w) as [a|]; [|discriminate].
+  unfold filter_log. destruct (a_notes a); try discriminate. unfold run_action, run_simple.
   rewrite (redact_log_ok isr _ Hok). reflexivity.
 Qed.
 
